@@ -34,6 +34,7 @@ CONSTANTS
   Isolated0 = {}
   MembCids = {}
   MembTargets = {}
+  CrashNodes = {}
   Spares = {}
   MaxDepth = 1000
   SimDepth = 60
